@@ -102,6 +102,7 @@ func alphabet(thorough bool) []string {
 	a := []string{
 		"list hot", "source_path=" + srcA, "source_path=" + srcB,
 		"top 1 a", "top -b", "top -cum", "tree b", "peek a", "traces", "tags x", "dot", "callgrind", "text c",
+		"o", "help",
 		"focus=a", "hide=b", "tagroot=k", "tagfocus=x", "lines", "files", "noinlines=true", "sample_index=1", "nodecount=1", ":",
 		// assignments pprof rejects (see rejected): they must leave the option values alone
 		"sort=cum", "sort=sideways", "granularity=cheese", "nodecount=abc",
@@ -112,7 +113,10 @@ func alphabet(thorough bool) []string {
 	return a
 }
 
-var probes = []string{"top", "top -cum", "tree", "peek .", "traces", "tags", "dot", "callgrind", "raw", "proto", "list hot|cold"}
+var probes = []string{"top", "top -cum", "tree", "peek .", "traces", "tags", "dot", "callgrind", "raw", "proto", "list hot|cold", "help", "o"}
+
+// toTerminal lists the commands that print to the terminal and take no redirection.
+var toTerminal = map[string]bool{"help": true, "o": true}
 
 // rejected lists the assignments of the alphabet that are invalid by the documentation of the
 // option (a value outside the documented choices, a non-number for a number): pprof prints an
@@ -151,13 +155,17 @@ func runSession(data []byte, lines []string) session {
 	var ui drive.UI
 	n := 0
 	for _, l := range lines {
-		if !isAssignment(l) {
+		if !isAssignment(l) && !toTerminal[l] {
 			l = fmt.Sprintf("%s >H%d", l, n)
 			n++
 		}
 		ui.Lines = append(ui.Lines, l)
 	}
 	for i, p := range probes {
+		if toTerminal[p] {
+			ui.Lines = append(ui.Lines, p)
+			continue
+		}
 		ui.Lines = append(ui.Lines, fmt.Sprintf("%s >P%d", p, i))
 	}
 	fl := drive.MkFlags([]string{"p"})
@@ -185,6 +193,12 @@ func runSession(data []byte, lines []string) session {
 			s.greet = append(s.greet, m)
 		} else if i := at - 1 - first; i >= 0 && i < len(probes) {
 			s.msgs[i] = append(s.msgs[i], m)
+		}
+	}
+	// what a probe prints to the terminal (help, the option list) is its output as well
+	for k, m := range ui.Out {
+		if i := ui.OutAt[k] - 1 - first; ui.OutAt[k] > 0 && i >= 0 && i < len(probes) {
+			s.msgs[i] = append(s.msgs[i], "out: "+m)
 		}
 	}
 	return s
